@@ -72,7 +72,8 @@ func checkC20(c *Ctx) {
 		fq := NewFlow(p, cfgQ)
 		ok := false
 		for _, r := range returnsOf(cfgQ) {
-			if fq.K.Key(r.Results[0]) == "hs.QuorumSize((*hs/core.RuntimeConfig).ReplicaCount(p0))" {
+			k := fq.K.Key(r.Results[0])
+			if k == "hs.QuorumSize((*hs/core.RuntimeConfig).ReplicaCount(p0))" || strings.HasPrefix(k, "hs.QuorumSize(builtin len(p0->hs/core.RuntimeConfig.replicas)") {
 				ok = true
 			}
 		}
@@ -135,7 +136,9 @@ func checkC20(c *Ctx) {
 						}
 					}
 				}
-				isCount := func(k string) bool { return strings.HasPrefix(k, kPartLen) || lenOfVotes[k] }
+				isCount := func(k string) bool {
+					return strings.HasPrefix(k, kPartLen) || lenOfVotes[k] || strings.HasPrefix(k, "invoke (hs.IDSet).Len(")
+				}
 				isQ := func(k string) bool { return strings.HasPrefix(k, kQuorumSize) }
 				switch {
 				case isCount(kx) && isQ(ky), isCount(ky) && isQ(kx):
